@@ -126,6 +126,25 @@ def main():
         def api_docstring_parse(x):
             return canon_ir(cdd.docstring.parse.docstring(x["text"]))
 
+        def api_docstring_roundtrip(x):
+            ir = cdd.docstring.parse.docstring(x["text"])
+            return canon_ir(ir) + "".join("\n#--%s\n%s" % (st, cdd.docstring.emit.docstring(deepcopy(ir), docstring_format=st)) for st in ("rest", "google", "numpydoc"))
+
+        def api_sync(x):
+            import cdd.__main__ as m
+
+            d = os.path.dirname(fresh("x"))
+            paths = {k: os.path.join(d, k + ".py") for k in ("c", "f", "a")}
+            for k in paths:
+                with open(paths[k], "w") as f:
+                    f.write(x[k])
+            m.main(["sync", "--class", paths["c"], "--class-name", "ConfigClass", "--function", paths["f"], "--function-name", "method_name", "--argparse-function", paths["a"], "--argparse-function-name", "set_cli_args", "--truth", x.get("truth", "class")])
+            return "\n#----\n".join(open(paths[k]).read() for k in ("c", "f", "a"))
+
+        def api_sqlalchemy_variants(x):
+            ir = cdd.sqlalchemy.parse.sqlalchemy(first(x["src"]))
+            return to_code(cdd.sqlalchemy.emit.sqlalchemy_table(deepcopy(ir), name="k_tbl")) + to_code(cdd.sqlalchemy.emit.sqlalchemy_hybrid(deepcopy(ir), class_name="K", table_name="k_tbl"))
+
         def api_sqlalchemy_parse(x):
             return canon_ir(cdd.sqlalchemy.parse.sqlalchemy(first(x["src"])))
 
